@@ -1056,13 +1056,13 @@ def run(tier):
             'property assumes each symbol bound once)',
             'numerals in Real-only logics',
         ])
-    rule_r1_r2(chk, prog)
-    rule_width(chk, prog)
-    rule_r3(chk, prog)
-    rule_r4(chk, prog)
-    rule_r5(chk, prog)
-    rule_r6(chk, prog)
-    rule_r7(chk, prog)
+    chk.guard(rule_r1_r2, chk, prog)
+    chk.guard(rule_width, chk, prog)
+    chk.guard(rule_r3, chk, prog)
+    chk.guard(rule_r4, chk, prog)
+    chk.guard(rule_r5, chk, prog)
+    chk.guard(rule_r6, chk, prog)
+    chk.guard(rule_r7, chk, prog)
     chk.extra['exhaustive'] = True
     extra = None
     if tier == 'thorough':
